@@ -185,3 +185,89 @@ Proof.
   rewrite !(nth_map2 (ctr_ratio tiny64) 0 0 0) by assumption. rewrite S1, S2, S1', S2', !map_map.
   f_equal; f_equal; apply map_ext; intros b; unfold ctr_row; cbn [fst snd nth]; [apply eq_sym, wdot_row|apply eq_sym, wtotal_row].
 Qed.
+
+(* ---- WeightedCalibration ---- *)
+Lemma sums_nth {B} (F : B -> list Qc) nt bs i : (i < nt)%nat -> Forall (fun b => List.length (F b) = nt) bs ->
+  (i < List.length (fold_left (map2 Qcplus) (map F bs) (repeat 0%Qc nt)))%nat /\
+  nth i (fold_left (map2 Qcplus) (map F bs) (repeat 0%Qc nt)) 0 = fold_left Qcplus (map (fun b => nth i (F b) 0) bs) 0.
+Proof.
+  intros Hi Hl.
+  assert (HL : Forall (fun L : list Qc => (i < List.length L)%nat) (map F bs)).
+  { apply Forall_forall. intros L HLin. apply in_map_iff in HLin as [b [<- Hb]]. rewrite Forall_forall in Hl. rewrite (Hl b Hb). exact Hi. }
+  assert (Hr : (i < List.length (repeat 0%Qc nt))%nat) by (rewrite repeat_length; exact Hi).
+  destruct (nth_fold_plus i _ _ HL Hr) as [A1 A2]. split; [exact A1|]. rewrite A2, map_map, nth_repeat0. reflexivity.
+Qed.
+Definition wc_row (i : nat) (b : wc_batch) : wc_batch := ([nth i (wc_in b) []], [nth i (wc_tg b) []], row_w i (snd b)).
+Definition wc_Fin (b : wc_batch) := mapi (wdot (snd b)) (wc_in b).
+Definition wc_Ftg (b : wc_batch) := mapi (wdot (snd b)) (wc_tg b).
+Definition wc_sums (nt : nat) (bs : list wc_batch) : list Qc * list Qc :=
+  (fold_left (map2 Qcplus) (map wc_Fin bs) (repeat 0%Qc nt), fold_left (map2 Qcplus) (map wc_Ftg bs) (repeat 0%Qc nt)).
+Lemma wc_state nt bs : fold_left (upd wc_metric nt) bs (init wc_metric nt) =
+  Arr [nvec (fst (wc_sums nt bs)); nvec (snd (wc_sums nt bs))].
+Proof.
+  change (upd wc_metric nt) with (fun s b => nadd s (beta2 wc_batch wc_Fin wc_Ftg b)).
+  change (init wc_metric nt) with (Arr [nvec (repeat 0%Qc nt); nvec (repeat 0%Qc nt)]).
+  apply fold_beta2.
+Qed.
+Lemma wc_lens nt b : wc_valid nt b = true -> List.length (wc_Fin b) = nt /\ List.length (wc_Ftg b) = nt.
+Proof.
+  intros H. apply wc_valid_parts in H as [R [S _]]. apply rows_ok_uniform in R as [L _]. apply shape_eq_parts in S as [SL _].
+  unfold wc_Fin, wc_Ftg. rewrite !mapi_length. split; congruence.
+Qed.
+(* the accumulated sums of task i, and of the single-task metric on row i: the same numbers *)
+Definition wc_Ci (i : nat) (bs : list wc_batch) : Qc := fold_left Qcplus (map (fun b => wdot (snd b) i (nth i (wc_in b) [])) bs) 0.
+Definition wc_Ti (i : nat) (bs : list wc_batch) : Qc := fold_left Qcplus (map (fun b => wdot (snd b) i (nth i (wc_tg b) [])) bs) 0.
+Lemma wc_sums_nth nt bs i : (i < nt)%nat -> Forall (fun b => wc_valid nt b = true) bs ->
+  ((i < List.length (fst (wc_sums nt bs)))%nat /\ (i < List.length (snd (wc_sums nt bs)))%nat) /\
+  nth i (fst (wc_sums nt bs)) 0 = wc_Ci i bs /\ nth i (snd (wc_sums nt bs)) 0 = wc_Ti i bs.
+Proof.
+  intros Hi Hv. unfold wc_sums. cbn [fst snd].
+  assert (H1 : Forall (fun b => List.length (wc_Fin b) = nt) bs) by (eapply Forall_impl; [|exact Hv]; intros b Hb; apply (wc_lens nt b Hb)).
+  assert (H2 : Forall (fun b => List.length (wc_Ftg b) = nt) bs) by (eapply Forall_impl; [|exact Hv]; intros b Hb; apply (wc_lens nt b Hb)).
+  destruct (sums_nth wc_Fin nt bs i Hi H1) as [A1 A2]. destruct (sums_nth wc_Ftg nt bs i Hi H2) as [B1 B2].
+  split; [split; assumption|]. rewrite A2, B2. unfold wc_Ci, wc_Ti.
+  split; f_equal; apply map_ext_in; intros b Hb; rewrite Forall_forall in Hv; destruct (wc_lens nt b (Hv b Hb)) as [L1 L2];
+    unfold wc_Fin, wc_Ftg in *; rewrite mapi_length in L1, L2; apply nth_mapi_Q; lia.
+Qed.
+Lemma wc_single_sums bs i :
+  wc_sums 1%nat (map (wc_row i) bs) = ([wc_Ci i bs], [wc_Ti i bs]).
+Proof.
+  unfold wc_sums, wc_Ci, wc_Ti. rewrite !map_map. cbn [repeat].
+  assert (G : forall (f g : wc_batch -> Qc) l a, fold_left (map2 Qcplus) (map (fun b => [f b]) l) [a] = [fold_left Qcplus (map f l) a]).
+  { intros f g l. induction l as [|b l IH]; intros a; cbn [map fold_left map2]; [reflexivity|]. apply IH. }
+  f_equal.
+  - rewrite <- (G (fun b => wdot (snd b) i (nth i (wc_in b) [])) (fun _ => 0)). f_equal. apply map_ext. intros b.
+    unfold wc_Fin, wc_row, wc_in, mapi. cbn [fst snd mapi_from]. rewrite wdot_row. reflexivity.
+  - rewrite <- (G (fun b => wdot (snd b) i (nth i (wc_tg b) [])) (fun _ => 0)). f_equal. apply map_ext. intros b.
+    unfold wc_Ftg, wc_row, wc_tg, mapi. cbn [fst snd mapi_from]. rewrite wdot_row. reflexivity.
+Qed.
+(* task i of the multi-task class = the single-task class on row i, unless row i accumulated nothing
+   (then the single-task class returns the EMPTY tensor while task i of the multi-task class is 0/0 = nan) *)
+Theorem wc_task_slice nt bs i : (i < nt)%nat -> Forall (fun b => wc_valid nt b = true) bs ->
+  (wc_Ci i bs <> 0 \/ wc_Ti i bs <> 0) ->
+  nth i (cmp wc_metric nt (fold_left (upd wc_metric nt) bs (init wc_metric nt))) NaN =
+  nth 0%nat (cmp wc_metric 1%nat (fold_left (upd wc_metric 1%nat) (map (wc_row i) bs) (init wc_metric 1%nat))) NaN.
+Proof.
+  intros Hi Hv Hnz. rewrite !wc_state, wc_single_sums. cbn [fst snd].
+  change (cmp wc_metric nt) with (wc_gamma nt). change (cmp wc_metric 1%nat) with (wc_gamma 1%nat).
+  destruct (wc_sums_nth nt bs i Hi Hv) as [[L1 L2] [S1 S2]].
+  assert (Hq : forall x : Qc, x <> 0 -> qeq x 0 = false).
+  { intros x Hx. unfold qeq. destruct (Qc_eq_dec x 0); [contradiction|reflexivity]. }
+  assert (Hfa : forall l j, (j < List.length l)%nat -> nth j l 0 <> 0 -> forallb (fun x => qeq x 0) l = false).
+  { induction l as [|x l IHl]; intros j Hj Hn; [cbn in Hj; lia|]. destruct j as [|j]; cbn [nth forallb] in *.
+    - rewrite (Hq x Hn). reflexivity.
+    - rewrite (IHl j); [apply andb_false_r|cbn in Hj; lia|exact Hn]. }
+  rewrite (wc_gamma_value nt), (wc_gamma_value 1%nat).
+  - unfold nget. cbn [narr nth]. rewrite !nlist_nvec. rewrite (nth_map2 qdivx 0 0 NaN) by assumption. rewrite S1, S2. reflexivity.
+  - unfold wc_nothing, nget. cbn [narr nth]. rewrite !nlist_nvec. cbn [forallb]. destruct Hnz as [H|H]; rewrite (Hq _ H); cbn; [apply andb_false_r|reflexivity].
+  - unfold wc_nothing, nget. cbn [narr nth]. rewrite !nlist_nvec.
+    destruct Hnz as [H|H]; [rewrite (Hfa (fst (wc_sums nt bs)) i L1) by (rewrite S1; exact H); apply andb_false_r|
+                            rewrite (Hfa (snd (wc_sums nt bs)) i L2) by (rewrite S2; exact H); reflexivity].
+Qed.
+(* witness: task 1 accumulated nothing while task 0 did *)
+Lemma wc_all_zero_slice_refuted :
+  let b : wc_batch := ([[1]; [0]], [[1]; [0]], WSc 1) in
+  wc_valid 2 b = true /\
+  map xq_val (cmp wc_metric 2%nat (fold_left (upd wc_metric 2%nat) [b] (init wc_metric 2%nat))) = [VQ 1 1; VT "nan"%string []] /\
+  cmp wc_metric 1%nat (fold_left (upd wc_metric 1%nat) [wc_row 1 b] (init wc_metric 1%nat)) = [].
+Proof. repeat split; vm_compute; reflexivity. Qed.
